@@ -3,15 +3,26 @@
 (* orders and groupings; the key-source table.                                                          *)
 EXTENDS PsetMerge, PsetCodecTables, Json, IOUtils, FiniteSetsExt
 Tier == IOEnv.GEN_TIER
-Adds ==
-  { <<"g", f>> : f \in GlobalOpt } \cup { <<p, f>> : p \in {"i1", "i2"}, f \in InputOpt } \cup { <<p, f>> : p \in {"o1", "o2"}, f \in OutputOpt }
+\* ancestor shapes <<inputs, outputs>>; additions go to the first and the last map of each kind
+Shapes == { <<2, 2>>, <<1, 3>>, <<3, 1>>, <<1, 1>> }
+In(k) == "i" \o ToString(k)
+Out(k) == "o" \o ToString(k)
+AddsOf(sh) ==
+  { <<"g", f>> : f \in GlobalOpt } \cup { <<p, f>> : p \in {In(1), In(sh[1])}, f \in InputOpt } \cup { <<p, f>> : p \in {Out(1), Out(sh[2])}, f \in OutputOpt }
+Adds == AddsOf(<<2, 2>>)
 AddSeq == SetToSeq(Adds)
 Stride == IF Tier = "quick" THEN 7 ELSE 1
 BSide == { AddSeq[i] : i \in { j \in DOMAIN AddSeq : j % Stride = 0 } }
-PairCases == { [descs |-> << <<a>>, <<b>> >>, orders |-> << <<1, 2>>, <<2, 1>> >>] : a \in Adds, b \in BSide }
+PairCases == { [shape |-> <<2, 2>>, descs |-> << <<a>>, <<b>> >>, orders |-> << <<1, 2>>, <<2, 1>> >>] : a \in Adds, b \in BSide }
+\* the other shapes: every addition at a last position against a strided partner and against nothing
+LastAdds(sh) == { a \in AddsOf(sh) : a[1] \in {In(sh[1]), Out(sh[2])} }
+Strided(S, m) == LET q == SetToSeq(S) IN { q[i] : i \in { j \in DOMAIN q : j % m = 1 } }
+ShapeCases == UNION { { [shape |-> sh, descs |-> << <<a>>, <<b>> >>, orders |-> << <<1, 2>>, <<2, 1>> >>] : a \in LastAdds(sh), b \in Strided(AddsOf(sh), IF Tier = "quick" THEN 29 ELSE 5) }
+                      \cup { [shape |-> sh, descs |-> << <<a>>, << >> >>, orders |-> << <<1, 2>>, <<2, 1>> >>] : a \in AddsOf(sh) }
+                      : sh \in Shapes \ { <<2, 2>> } }
 \* three descendants, two additions each (disjoint or identical), all six orders
 T3 == { AddSeq[i] : i \in { j \in DOMAIN AddSeq : j % 11 = 3 } }
-TripleCases == { [descs |-> << <<a, b>>, <<b, c>>, <<c>> >>,
+TripleCases == { [shape |-> <<2, 2>>, descs |-> << <<a, b>>, <<b, c>>, <<c>> >>,
                   orders |-> << <<1, 2, 3>>, <<1, 3, 2>>, <<2, 1, 3>>, <<2, 3, 1>>, <<3, 1, 2>>, <<3, 2, 1>> >>] : a \in T3, b \in T3, c \in T3 }
 KsCases == { [a |-> [fp |-> a[1], path |-> a[2]], b |-> [fp |-> b[1], path |-> b[2]],
               want |-> KeySourceMerge(a, b)[1],
@@ -19,7 +30,7 @@ KsCases == { [a |-> [fp |-> a[1], path |-> a[2]], b |-> [fp |-> b[1], path |-> b
             : a \in KeySources, b \in KeySources }
 GInit == fam = << >> /\ acc = {} /\ merged = {} /\ order = << >>
 GNext == UNCHANGED vars
-ASSUME ndJsonSerialize(IOEnv.OUT, SetToSeq(PairCases \cup TripleCases))
+ASSUME ndJsonSerialize(IOEnv.OUT, SetToSeq(PairCases \cup ShapeCases \cup TripleCases))
 ASSUME ndJsonSerialize(IOEnv.OUT_KS, SetToSeq(KsCases))
-ASSUME PrintT(<<"EMITTED", Cardinality(Adds), Cardinality(PairCases), Cardinality(TripleCases), Cardinality(KsCases)>>)
+ASSUME PrintT(<<"EMITTED", Cardinality(Adds), Cardinality(PairCases) + Cardinality(ShapeCases), Cardinality(TripleCases), Cardinality(KsCases)>>)
 ====
